@@ -14,6 +14,11 @@ SIZES = [0, 1, 100, 65535, 65536, 65537, 1 << 20, 4 << 20]
 PRIMS = [None, 0, 1, -2.5, '', 'txt', [], {}, [1, [2, [3]]], {'k': {'k': [None, False]}}, {'__val__': [1, 'a']}, True, False, 'x' * 300]
 
 
+EXC_MENU = ['BrokenPipeError', 'ConnectionResetError', 'ConnectionAbortedError', 'EOFError', 'TimeoutError', 'InterruptedError', 'BlockingIOError', 'queue.Empty', 'queue.Full',
+            'StopIteration', 'AssertionError', 'RuntimeError', 'AttributeError', 'TypeError', 'ImportError', 'MemoryError', 'RecursionError', 'LookupError', 'BufferError',
+            'WorkerTerminatedError', 'NotImplementedError', 'PermissionError', 'ChildProcessError']
+
+
 def gen_triple(r, thorough):
     kind = r.choice(['ret', 'ret', 'echo', 'echo', 'arith', 'build', 'build', 'raise', 'raise', 'mutate', 'slow'])
     kwargs = {}
@@ -38,8 +43,13 @@ def gen_triple(r, thorough):
             args[1] = 70000
     elif kind == 'raise':
         t = 'raise_exc'
-        k = r.choice(['ValueError', 'KeyError', 'Custom', 'OSError', 'ZeroDivision'])
-        args = [k] + ([2, 'msg'] if k == 'OSError' else [r.choice(['a', 1, None]) for _ in range(r.randint(0, 2))])
+        # exception classes the library itself handles somewhere (pipe / connection / queue / termination errors) included:
+        # raised by the target they are the target's own outcome like any other
+        k = r.choice(['ValueError', 'KeyError', 'Custom', 'OSError', 'ZeroDivision'] + EXC_MENU)
+        if k == 'OSError':
+            args = [k, r.choice([2, 4, 11, 13, 32, 104, 110, 111]), 'msg']      # the errno picks the subclass (FileNotFoundError, BrokenPipeError, ...)
+        else:
+            args = [k] + [r.choice(['a', 1, None]) for _ in range(r.randint(0, 2))]
     else:
         t = 'mutate'
         args = [[1, 2], {'a': 1}]
@@ -181,6 +191,8 @@ def run(tier):
                 dict(target='ret_value', args=[None], kwargs={}, via='ctor', run=None), dict(target='ret_value', args=[''], kwargs={}, via='create', run=None),
                 dict(target='ret_slow', args=[7, 0.8, False], kwargs={}, via='ctor', run=None, wait_mode='polled'), dict(target='ret_slow', args=[8, 0.8, True], kwargs={}, via='create', run=None, wait_mode='polled'),
                 dict(target='build', args=['bytes', 4 << 20], kwargs={}, via='ctor', run=None, wait_mode='polled'), dict(target='ret_value', args=[None], kwargs={}, via='ctor', run=None, wait_mode='polled')]
+    triples += [dict(target='raise_exc', args=[k] + ([] if i % 2 else ['x']), kwargs={}, via='ctor' if i % 3 else 'create', run=None) for i, k in enumerate(EXC_MENU)]
+    triples += [dict(target='raise_exc', args=['OSError', en, 'm'], kwargs={}, via='ctor', run=None) for en in (4, 11, 32, 104, 110, 111)]
     main_triples = [dict(target='main:main_ret', args=[4], kwargs={}, via='ctor', run=None), dict(target='main:main_raise', args=[4], kwargs={}, via='ctor', run=None),
                     dict(target='main:main_plain', args=[4], kwargs={}, via='create', run=None), dict(target='main:main_ret', args=[[1, 2]], kwargs={}, via='create', run=None)]
     wd = workdir('c02')
